@@ -273,11 +273,20 @@ def gen_case(rng, tier, index):
             ops.append(["scan"]); scanned_clean = True
         elif r < 0.72:
             ops.append(["find", [gen_expr(rng, dates) for _ in range(rng.choice([1, 1, 2]))], bool(scanned_clean and rng.random() < 0.5)])
+            scanned_clean = True        # every command without -n scans first
         else:
             dry = rng.random() < 0.3
             ops.append(["clean", [gen_expr(rng, dates) for _ in range(rng.choice([1, 1, 2, 3]))], dry, bool(scanned_clean and rng.random() < 0.4)])
             if not dry:
                 scanned_clean = False
+            else:
+                # a dry run must leave the index as it is: the next command may rely on it (-n)
+                scanned_clean = True
+                if rng.random() < 0.6:
+                    ops.append(["find", [gen_expr(rng, dates) for _ in range(rng.choice([1, 2]))], True])
+                    if rng.random() < 0.5:
+                        ops.append(["clean", [gen_expr(rng, dates)], False, True])
+                        scanned_clean = False
     return {"arts": arts, "ops": ops}
 
 def directed_cases(tier):
